@@ -207,6 +207,75 @@ reg(
 )
 
 
+E_C30 = [r"^jq::(eval|eval_generic|parser)::(eval\w*|parse\w*)$", r"^bin::jq_runner::", r"^bin::output::"]
+reg(
+    "C30",
+    "other",
+    "Crash classes of the jq interpreter that are decidable from code shape: every cycle of input-driven recursion reachable from parse/eval "
+    "(functions whose recursion is not bounded by AST or YAML-cursor depth) must contain a call edge dominated by a depth guard (REC; hand-triaged "
+    "value-driven cycles are accepted with a reason each); calls of panicking depth guards reachable from eval are reported (PANICGUARD: the deliberate "
+    "assert_depth design, all known findings); allocation sizes derived from runtime numbers must be refused before allocating (ALLOC). "
+    "Arithmetic/index panics in builtins are not decided.",
+    [
+        only_cfgs(_lazy("cgrules", "rule_rec", entries=E_C30, name="REC(jq)", floor=50), ["cli"]),
+        only_cfgs(_lazy("cgrules", "rule_panicguard", entries=E_C30, name="PANICGUARD"), ["cli"]),
+        only_cfgs(_lazy("cgrules", "rule_alloc"), ["cli"]),
+    ],
+    quick=["cli"],
+    technique="call-graph SCC analysis with dominance of depth guards; reachability of panicking guards; intraprocedural taint to allocation sinks",
+)
+
+E_C19 = [r"^(json|yaml|dsv|text)::", r"^jq::parser::parse", r"^bin::(jq_runner|yq_runner|output|jq_locate|yq_locate)::"]
+reg(
+    "C19",
+    "other",
+    "Crash classes decidable from code shape on the load / validate / traverse / print / parse entry points: unguarded input-driven recursion (REC), "
+    "panicking depth guards reachable from those entries (PANICGUARD, known findings), vector kernels reachable without feature detection (T1, all quick "
+    "configurations), alignment-sensitive panicking casts on caller bytes (ALIGN). Index/slice/arithmetic panics in general are not decided.",
+    [
+        only_cfgs(_lazy("cgrules", "rule_rec", entries=E_C19, name="REC(load/print)", floor=300), ["cli"]),
+        only_cfgs(_lazy("cgrules", "rule_panicguard", entries=E_C19, name="PANICGUARD"), ["cli"]),
+        only_cfgs(_lazy("cgrules", "rule_align"), ["cli"]),
+        T1_ALL,
+    ],
+    quick=["cli", "simd"],
+    technique="call-graph SCC analysis with dominance of depth guards; reachability; target-feature dominance dataflow; alignment rule on resolved generic casts",
+)
+
+reg(
+    "C31",
+    "other",
+    "No alignment-increasing panicking cast is applied to caller-supplied bytes (ALIGN over every bytemuck call in the crate, alignment from the "
+    "resolved generic arguments). The value round trip is bytemuck's and is not decided; rebuilt-index equality reduces to C04/C07 arithmetic.",
+    [only_cfgs(_lazy("cgrules", "rule_align"), ["cli"])],
+    quick=["cli"],
+    technique="resolved-generic alignment rule over MIR call sites",
+)
+
+
+reg(
+    "C28",
+    "translation_validation",
+    "Writer/reader agreement between jq-locate's path printer and the jq expression parser: printer functions (can_use_dot_notation, escape_jq_string) "
+    "and reader functions (Parser::is_expr_terminator, parse_ident, parse_string_literal in jq mode) are evaluated from MIR on a boundary-complete key family "
+    "(every ASCII character alone / second / infix, every keyword literal the parser tests for with prefix/suffix/case variants, control characters, quotes, "
+    "backslashes, interpolation openers, non-ASCII alphabetic/numeric/symbol characters): a key printed in dot form must be read back as exactly that field name, "
+    "a key printed in bracket form must decode to the key. Offset->node mapping and path reconstruction are not decided.",
+    [only_cfgs(_lazy("locate", "rule_locate", module="json::locate", mode="Jq", name="WRITERREADER(jq-locate)"), ["cli"])],
+    quick=["cli"],
+    technique="finite-domain evaluation of printer and parser MIR fragments (writer/reader table agreement)",
+)
+reg(
+    "C29",
+    "translation_validation",
+    "Same writer/reader agreement for yq-locate's printer (yaml::locate) against the parser in yq mode (identifiers may contain inner hyphens). "
+    "Offset->node mapping over multi-document streams is not decided.",
+    [only_cfgs(_lazy("locate", "rule_locate", module="yaml::locate", mode="Yq", name="WRITERREADER(yq-locate)"), ["cli"])],
+    quick=["cli"],
+    technique="finite-domain evaluation of printer and parser MIR fragments (writer/reader table agreement)",
+)
+
+
 def run(pid, tier, only=None, replay=None):
     if pid not in REGISTRY:
         print("property %s is not claimed (see MANIFEST.not_applicable)" % pid)
